@@ -83,6 +83,23 @@ def der_integer(vc):
     n = vc.len(enc)
     cut = vc.call(M.remove_integer, enc[:n - 1])
     vc.prove("truncated-integer-refused", cut.raised(M.UnexpectedDER), repr(cut.exc))
+    # DER allows exactly one encoding: malformed variants of it are refused, not normalised
+    body = enc[2:] if n <= 129 else None          # short-form length (every integer the key / signature encodings carry)
+    if body is not None:
+        first = body[0]
+        if first < 0x80:
+            padded = vc.cat(b"\x02", M.encode_length(vc.len(body) + 1), b"\x00", body)
+            o = vc.call(M.remove_integer, vc.cat(padded, rest))
+            vc.prove("unnecessary-leading-zero-refused(non-minimal)", o.raised(M.UnexpectedDER), repr(o.exc))
+        if first == 0 and vc.len(body) > 1:
+            # the leading 00 is there because the next byte has its top bit set: without it the integer reads negative
+            neg = vc.cat(b"\x02", M.encode_length(vc.len(body) - 1), body[1:])
+            o = vc.call(M.remove_integer, vc.cat(neg, rest))
+            vc.prove("top-bit-set-without-leading-zero-refused(negative)", o.raised(M.UnexpectedDER), repr(o.exc))
+    o = vc.call(M.remove_integer, vc.cat(b"\x02\x00", rest))
+    vc.prove("zero-length-integer-refused", o.raised(M.UnexpectedDER), repr(o.exc))
+    o = vc.call(M.remove_integer, vc.cat(b"\x03", enc[1:]))
+    vc.prove("other-tag-refused", o.raised(M.UnexpectedDER), repr(o.exc))
 
 
 def fam_n2s(seed, tier):
@@ -207,8 +224,15 @@ def key_encodings(vc):
                 for cp in ("named_curve", "explicit"):
                     vc.tick()
                     der = sk.to_der(format=fmt, curve_parameters_encoding=cp)
-                    if K.SigningKey.from_der(der).to_string() != sk.to_string():
+                    back = K.SigningKey.from_der(der)
+                    if back.to_string() != sk.to_string():
                         bad.append(("sk-der", fmt, cp, d))
+                    # "decoded key equality": == / != of the key objects agree with the key material
+                    other_sk = K.SigningKey.from_secret_exponent(d + 1 if d + 1 < n else d - 1, curve)
+                    if not (back == sk) or (back != sk) or (back == other_sk) or not (back != other_sk) \
+                            or not (back.privkey == sk.privkey) or (back.privkey != sk.privkey) or (back.privkey == other_sk.privkey) \
+                            or not (back.verifying_key == vk) or (back.verifying_key != vk) or (back.verifying_key == other_sk.verifying_key):
+                        bad.append(("key-equality", fmt, cp, d))
                     pem = sk.to_pem(format=fmt, curve_parameters_encoding=cp)
                     if K.SigningKey.from_pem(pem).to_string() != sk.to_string():
                         bad.append(("sk-pem", fmt, cp, d))
@@ -914,3 +938,57 @@ def point_bytes(vc):
 # the contract itself (a root or SquareRootError) is checked under C17 and is an obligation here too (bounded, labelled)
 from pyvc.harness import reuse as _reuse
 _reuse("C17/numbertheory.sqrt-and-inverse", "C19/compressed-points.sqrt=a-root-or-SquareRootError")
+
+
+# ---------------------------------------------------------------------------------------
+# curve parameters (ECParameters): named (OID) and explicit (field, coefficients, generator, order, cofactor) forms of all 17
+# curves decode to the same curve, DER and PEM; an encoding the caller did not allow, a truncated / extended structure and
+# an unknown OID are refused with the documented errors.  (bounded: every curve x every form; labelled)
+
+@proof("C19/curve-parameters", functions=[("register_crypto_plugin.ecdsa.curves", "Curve.to_der"), ("register_crypto_plugin.ecdsa.curves", "Curve.from_der"),
+                                          ("register_crypto_plugin.ecdsa.curves", "Curve.to_pem"), ("register_crypto_plugin.ecdsa.curves", "Curve.from_pem"),
+                                          ("register_crypto_plugin.ecdsa.curves", "find_curve"), ("register_crypto_plugin.ecdsa.curves", "curve_by_name")],
+       family=lambda seed, tier: [dict(curve=c) for c in CURVES], bounded_only=True)
+def curve_parameters(vc):
+    C = vc.module("register_crypto_plugin.ecdsa.curves")
+    D = vc.module(DER)
+    ERR = vc.module("register_crypto_plugin.ecdsa.errors")
+    cv = getattr(C, vc._get("curve"))
+    allowed = (D.UnexpectedDER, ERR.MalformedPointError, ValueError, C.UnknownCurveError)
+    bad = []
+    vc.prove("by-name-and-by-oid", C.curve_by_name(cv.name) is cv and C.find_curve(cv.oid) is cv)
+    named = cv.to_der("named_curve")
+    vc.prove("named=the-OID-object", named == D.encode_oid(*cv.oid) and cv.to_der() == named)
+    for form, pe in (("named_curve", "uncompressed"), ("explicit", "uncompressed"), ("explicit", "compressed"), ("explicit", "hybrid")):
+        vc.tick()
+        blob = cv.to_der(form, pe)
+        got = vc.call(C.Curve.from_der, blob)
+        if not (got.returned and got.value == cv):
+            bad.append((form, pe, "der round trip", repr(got.exc)))
+        pem = cv.to_pem(form, pe)
+        got = vc.call(C.Curve.from_pem, pem)
+        if not (got.returned and got.value == cv):
+            bad.append((form, pe, "pem round trip", repr(got.exc)))
+        other = "explicit" if form == "named_curve" else "named_curve"
+        got = vc.call(C.Curve.from_der, blob, [other])
+        if got.returned or not isinstance(got.exc, allowed):
+            bad.append((form, pe, "form not allowed but accepted / wrong error", repr(got.exc)))
+        got = vc.call(C.Curve.from_der, blob, [form])
+        if not (got.returned and got.value == cv):
+            bad.append((form, pe, "only this form allowed", repr(got.exc)))
+        for cut in range(len(blob)):
+            vc.tick()
+            got = vc.call(C.Curve.from_der, blob[:cut])
+            if got.returned or not isinstance(got.exc, allowed):
+                bad.append((form, pe, "truncated at %d" % cut, "accepted" if got.returned else repr(got.exc)))
+                break
+        got = vc.call(C.Curve.from_der, blob + b"\x00")
+        if got.returned or not isinstance(got.exc, allowed):
+            bad.append((form, pe, "extended", "accepted" if got.returned else repr(got.exc)))
+    got = vc.call(C.Curve.from_der, D.encode_oid(1, 2, 840, 10045, 3, 1, 99))
+    if not got.raised(C.UnknownCurveError):
+        bad.append(("unknown oid", repr(got.exc)))
+    o = vc.call(cv.to_der, "implicit")
+    if not o.raised(ValueError):
+        bad.append(("unknown form accepted by to_der", repr(o.exc)))
+    vc.prove("curve-parameter-encodings", not bad, repr(bad[:4]))
